@@ -1,4 +1,4 @@
 SPECIFICATION Spec
-CONSTANTS MaxDepth = 3 MaxN = 2 MaxHistView = 0 Fault = "none"
+CONSTANTS MaxDepth = 3 MaxN = 2 MaxHistView = 0 HistClassIdx = {1, 5} Fault = "none"
 INVARIANTS InvTheorems InvStep InvAccumulated InvOutput
 CHECK_DEADLOCK FALSE
